@@ -10,11 +10,14 @@ Record dt := mk_dt {
   d_clips : list clip;      (* top of the stack first *)
   d_layers : list layer;    (* innermost first *)
   d_ctm : xform;
-  d_cur : cursor
+  d_cur : cursor;
+  (* model-only instrumentation used by the oracles, always 0 in the model of the code:
+     -1 = region probe (a touched pixel becomes 1), 1..255 = force every coverage byte to it *)
+  d_probe : Z
 }.
 
 Definition dt_new (w h : Z) (buf : list Z) : dt :=
-  mk_dt w h buf [] [] xf_identity (mk_cursor None None (rast_new w h)).
+  mk_dt w h buf [] [] xf_identity (mk_cursor None None (rast_new w h)) 0.
 
 Definition surface_rect (st : dt) : rect := mkrect 0 0 (d_w st) (d_h st).
 Definition clip_bounds (st : dt) : rect :=
@@ -22,11 +25,12 @@ Definition clip_bounds (st : dt) : rect :=
 Definition top_clip_mask (st : dt) : option (list Z) :=
   match d_clips st with c :: _ => c_mask c | [] => None end.
 
-Definition with_buf (st : dt) (b : list Z) : dt := mk_dt (d_w st) (d_h st) b (d_clips st) (d_layers st) (d_ctm st) (d_cur st).
-Definition with_clips (st : dt) (c : list clip) : dt := mk_dt (d_w st) (d_h st) (d_buf st) c (d_layers st) (d_ctm st) (d_cur st).
-Definition with_layers (st : dt) (l : list layer) : dt := mk_dt (d_w st) (d_h st) (d_buf st) (d_clips st) l (d_ctm st) (d_cur st).
-Definition with_ctm (st : dt) (t : xform) : dt := mk_dt (d_w st) (d_h st) (d_buf st) (d_clips st) (d_layers st) t (d_cur st).
-Definition with_cur (st : dt) (c : cursor) : dt := mk_dt (d_w st) (d_h st) (d_buf st) (d_clips st) (d_layers st) (d_ctm st) c.
+Definition with_buf (st : dt) (b : list Z) : dt := mk_dt (d_w st) (d_h st) b (d_clips st) (d_layers st) (d_ctm st) (d_cur st) (d_probe st).
+Definition with_clips (st : dt) (c : list clip) : dt := mk_dt (d_w st) (d_h st) (d_buf st) c (d_layers st) (d_ctm st) (d_cur st) (d_probe st).
+Definition with_layers (st : dt) (l : list layer) : dt := mk_dt (d_w st) (d_h st) (d_buf st) (d_clips st) l (d_ctm st) (d_cur st) (d_probe st).
+Definition with_ctm (st : dt) (t : xform) : dt := mk_dt (d_w st) (d_h st) (d_buf st) (d_clips st) (d_layers st) t (d_cur st) (d_probe st).
+Definition with_probe (st : dt) (p : Z) : dt := mk_dt (d_w st) (d_h st) (d_buf st) (d_clips st) (d_layers st) (d_ctm st) (d_cur st) p.
+Definition with_cur (st : dt) (c : cursor) : dt := mk_dt (d_w st) (d_h st) (d_buf st) (d_clips st) (d_layers st) (d_ctm st) c (d_probe st).
 
 (* destination of drawing calls: innermost layer or the surface *)
 Definition dest_of (st : dt) : list Z * rect :=
@@ -62,19 +66,25 @@ Definition blit_px (k : blitter_kind) (src dst mask clip : Z) : result Z :=
   | BBlend m => blend_px m src dst
   end.
 
-Fixpoint span_px (k : blitter_kind) (sh : shader) (y : Z) (x : Z) (dsts masks clips : list Z) : result (list Z) :=
+Definition kind_has_mask (k : blitter_kind) : bool := match k with BBlend _ => false | _ => true end.
+Definition kind_has_clip (k : blitter_kind) : bool := match k with BClipMask _ | BClipBlendMask _ _ => true | _ => false end.
+(* region probe: 1 where the blitter may write (coverage and clip coverage both non-zero) *)
+Definition probe_px (k : blitter_kind) (dst mask clip : Z) : Z :=
+  if (kind_has_mask k && (mask =? 0)) || (kind_has_clip k && (clip =? 0)) then dst else 1.
+
+Fixpoint span_px (probe : Z) (k : blitter_kind) (sh : shader) (y : Z) (x : Z) (dsts masks clips : list Z) : result (list Z) :=
   match dsts with
   | [] => Ok []
   | d :: dt' =>
       let m := match masks with m :: _ => m | [] => 0 end in
       let c := match clips with c :: _ => c | [] => 0 end in
-      do v <- blit_px k (shade sh x y) d m c;
-      do rest <- span_px k sh y (x + 1) dt' (tl masks) (tl clips);
+      do v <- (if probe =? -1 then Ok (probe_px k d m c) else blit_px k (shade sh x y) d m c);
+      do rest <- span_px probe k sh y (x + 1) dt' (tl masks) (tl clips);
       Ok (v :: rest)
   end.
 
 (* Blitter::blit_span(y, x1, x2, mask) on destination `dest` with origin (bx, by) and stride *)
-Definition blit_span (k : blitter_kind) (sh : shader) (surf_w : Z) (dest : list Z) (db : rect)
+Definition blit_span (probe : Z) (k : blitter_kind) (sh : shader) (surf_w : Z) (dest : list Z) (db : rect)
            (y x1 x2 : Z) (mask : list Z) : result (list Z) :=
   let stride := r_w db in
   let dest_row := (y - y0 db) * stride in
@@ -91,11 +101,11 @@ Definition blit_span (k : blitter_kind) (sh : shader) (surf_w : Z) (dest : list 
              | BBlend _ => Ok []
              | _ => if zlen mask <? count then Err OutOfBounds else Ok mask
              end;
-  do new <- span_px k sh y x1 drow mrow crow;
+  do new <- span_px probe k sh y x1 drow (if 0 <? probe then map (fun _ => probe) mrow else mrow) crow;
   Ok (splice dest start new).
 
 (* DrawTarget::composite *)
-Fixpoint composite_rows (k : blitter_kind) (sh : shader) (surf_w : Z) (db : rect) (mask : option (list Z))
+Fixpoint composite_rows (probe : Z) (k : blitter_kind) (sh : shader) (surf_w : Z) (db : rect) (mask : option (list Z))
          (mask_rect r : rect) (ys : list Z) (dest : list Z) : result (list Z) :=
   match ys with
   | [] => Ok dest
@@ -106,8 +116,8 @@ Fixpoint composite_rows (k : blitter_kind) (sh : shader) (surf_w : Z) (db : rect
                      slice m (mask_row + x0 r - x0 mask_rect) (mask_row + x1 r - x0 mask_rect)
                  | None => Ok []
                  end;
-      do dest' <- blit_span k sh surf_w dest db y (x0 r) (x1 r) mrow;
-      composite_rows k sh surf_w db mask mask_rect r t dest'
+      do dest' <- blit_span probe k sh surf_w dest db y (x0 r) (x1 r) mrow;
+      composite_rows probe k sh surf_w db mask mask_rect r t dest'
   end.
 
 Definition composite (st : dt) (src : source) (mask : option (list Z)) (mask_rect rect0 : rect)
@@ -120,7 +130,7 @@ Definition composite (st : dt) (src : source) (mask : option (list Z)) (mask_rec
       if r_empty r then Ok st else
       let sh := choose_shader ti src alpha in
       let k := choose_blitter (match mask with Some _ => true | None => false end) (top_clip_mask st) blend in
-      do dest' <- composite_rows k sh (d_w st) db mask mask_rect r (zrange (y0 r) (y1 r)) dest;
+      do dest' <- composite_rows (d_probe st) k sh (d_w st) db mask mask_rect r (zrange (y0 r) (y1 r)) dest;
       Ok (set_dest st dest')
   end.
 
@@ -205,7 +215,7 @@ Definition fill_rect (st : dt) (x y w h : f32) (src : source) (o : draw_options)
 
 Definition clear (st : dt) (c : Z) : result dt :=
   match d_clips st with
-  | [] => let '(dest, _) := dest_of st in Ok (set_dest st (map (fun _ => c) dest))
+  | [] => let '(dest, _) := dest_of st in Ok (set_dest st (map (fun _ => if d_probe st =? -1 then 1 else c) dest))
   | _ =>
       let ctm := d_ctm st in
       do st' <- fill (with_ctm st xf_identity) (rect_path f0 f0 (of_int (d_w st)) (of_int (d_h st))) (Solid c)
@@ -262,3 +272,15 @@ Definition step_op (st : dt) (o : op) : result dt :=
   | OpSurface k sw sh sbuf sr dx dy =>
       do b <- surface_op k (d_w st) (d_h st) (d_buf st) sw sh sbuf sr dx dy; Ok (with_buf st b)
   end.
+
+(* ---- oracles' instrumentation ---- *)
+Definition zero_bufs (st : dt) : dt :=
+  with_layers (with_buf st (map (fun _ => 0) (d_buf st)))
+    (map (fun l => mk_layer (map (fun _ => 0) (l_buf l)) (l_opacity l) (l_rect l) (l_blend l)) (d_layers st)).
+(* the set of destination pixels a drawing call may change: 1 where the shape's coverage and every
+   clip's coverage are non-zero inside the clip rectangles and the destination, else 0 *)
+Definition probe_region (st : dt) (o : op) : result (list Z) :=
+  do st' <- step_op (with_probe (zero_bufs st) (-1)) o; Ok (fst (dest_of st')).
+(* the same call with every coverage byte of the shape forced to v (1..255) *)
+Definition step_forced (st : dt) (o : op) (v : Z) : result dt :=
+  do st' <- step_op (with_probe st v) o; Ok (with_probe st' 0).
